@@ -63,21 +63,42 @@ type cfg struct {
 	RouteMws [][]int  `json:"route_mws"`          // per route: ids of its own middleware
 	Updated  []int    `json:"updated"`            // route 0 is updated with this list (nil: no update)
 	PerRoute bool     `json:"per_route_slash"`    // trailing-slash redirect enabled on the routes only, not router-wide
+	// Shared: one option value per middleware id, created once and used wherever that id appears - as a global option
+	// and as a route option, on several routes, and again for a second router built after the first one was checked
+	Shared bool `json:"shared_option_values,omitempty"`
+}
+
+// optCache hands out one fox.Option value per middleware id.
+type optCache map[int]fox.Option
+
+func (oc optCache) get(id int) fox.Option {
+	if o, ok := oc[id]; ok {
+		return o
+	}
+	o := fox.WithMiddleware(mw(id))
+	oc[id] = o
+	return o
 }
 
 func (c cfg) String() string {
-	return fmt.Sprintf("globals=%v default@%d routes=%v update=%v", c.Globals, c.Default, c.RouteMws, c.Updated)
+	s := fmt.Sprintf("globals=%v default@%d routes=%v update=%v", c.Globals, c.Default, c.RouteMws, c.Updated)
+	if c.Shared {
+		s += " shared-option-values"
+	}
+	return s
 }
 
 const handlerID = -1
 
-func build(c cfg) (*fox.Router, error) {
+func build(c cfg, oc optCache) (*fox.Router, error) {
 	var opts []fox.GlobalOption
 	for i, g := range c.Globals {
 		if c.Default == i {
 			opts = append(opts, fox.DefaultOptions())
 		}
-		if g.Plain {
+		if g.Plain && oc != nil {
+			opts = append(opts, oc.get(g.ID))
+		} else if g.Plain {
 			opts = append(opts, fox.WithMiddleware(mw(g.ID)))
 		} else {
 			opts = append(opts, fox.WithMiddlewareFor(g.Scope, mw(g.ID)))
@@ -125,9 +146,18 @@ func same(a, b []int) bool {
 	return true
 }
 
-func routeOpts(ids []int) []fox.RouteOption {
+func routeOpts(ids []int) []fox.RouteOption { return routeOptsWith(ids, nil) }
+
+func routeOptsWith(ids []int, oc optCache) []fox.RouteOption {
 	if len(ids) == 0 {
 		return nil
+	}
+	if oc != nil {
+		var out []fox.RouteOption
+		for _, id := range ids {
+			out = append(out, oc.get(id))
+		}
+		return out
 	}
 	ms := make([]fox.MiddlewareFunc, len(ids))
 	for i, id := range ids {
@@ -141,9 +171,20 @@ func routeOpts(ids []int) []fox.RouteOption {
 }
 
 func check(run *kit.Run, c cfg) {
-	id := c.String()
+	if !c.Shared {
+		checkPass(run, c, nil, "")
+		return
+	}
+	oc := optCache{}
+	checkPass(run, c, oc, "|shared-options-first-router")
+	checkPass(run, c, oc, "|shared-options-second-router")
+}
+
+func checkPass(run *kit.Run, c cfg, oc optCache, suffix string) {
+	id := c.String() + suffix
+	routeOpts := func(ids []int) []fox.RouteOption { return routeOptsWith(ids, oc) }
 	run.Guard("panic|"+id, c, func() {
-		f, err := build(c)
+		f, err := build(c, oc)
 		if err != nil {
 			run.Violate("new|"+id, fmt.Sprintf("fox.New rejected a valid middleware configuration: %v\n%s", err, id), c)
 			return
@@ -304,6 +345,20 @@ func main() {
 				c.RouteMws = append(c.RouteMws, ids)
 			}
 			if r.IntN(3) == 0 {
+				// one option value per id, ids of plain global entries reused on routes
+				c.Shared = true
+				for j := range c.RouteMws {
+					for k := range c.RouteMws[j] {
+						if ng > 0 && r.IntN(2) == 0 {
+							c.RouteMws[j][k] = c.Globals[r.IntN(ng)].ID
+						}
+					}
+				}
+				for j := range c.Globals {
+					c.Globals[j].Plain = c.Globals[j].Plain || r.IntN(2) == 0
+				}
+			}
+			if r.IntN(3) == 0 {
 				c.Updated = []int{}
 				for k, m := 0, r.IntN(3); k < m; k++ {
 					c.Updated = append(c.Updated, 200+k)
@@ -337,7 +392,7 @@ func concurrent(run *kit.Run) {
 		for j := 0; j < ng; j++ {
 			c.Globals = append(c.Globals, global{ID: j + 1, Scope: fox.AllHandlers})
 		}
-		f, err := build(c)
+		f, err := build(c, nil)
 		if err != nil {
 			run.Inconclusive("fox.New: %v", err)
 			return
